@@ -16,7 +16,6 @@ package static
 import (
 	"fmt"
 	"regexp"
-	"strings"
 
 	"github.com/attestantio/dirk/services/checker"
 	"github.com/attestantio/dirk/services/metrics"
@@ -124,19 +123,10 @@ func parseAndCheckParameters(params ...Parameter) (*parameters, error) {
 func regexify(name string) (*regexp.Regexp, error) {
 	// Empty equates to all.
 	if name == "" {
-		name = "(?i).*"
-	}
-	// Anchor if required.
-	if !strings.HasPrefix(name, "^") {
-		name = fmt.Sprintf("^%s", name)
-	}
-	if !strings.HasSuffix(name, "$") {
-		name = fmt.Sprintf("%s$", name)
-	}
-	// Case insensitivity if required.
-	if !strings.HasPrefix(name, "(?i)") {
-		name = fmt.Sprintf("(?i)%s", name)
+		name = ".*"
 	}
 
-	return regexp.Compile(name)
+	// Anchor the expression as a whole, so that alternations cannot match a part of the name,
+	// and make it case insensitive.
+	return regexp.Compile(fmt.Sprintf("(?i)^(?:%s)$", name))
 }
